@@ -407,7 +407,7 @@ Qed.
 Lemma liv_spawn : forall W s j, wf W = true -> LivQ W s (fun c => In c (queue s) \/ c = CSpawn j) -> Inv W s ->
   pc (jobs s j) = PSpawned -> Liv W (run_spawn W all_fixed s j).
 Proof.
-  intros W s j WF L I P. unfold run_spawn. simpl fx3. rewrite <- adopted_some.
+  intros W s j WF L I P. unfold run_spawn. simpl fx3. simpl fx6. rewrite <- adopted_some.
   set (r := jobs s j) in *. set (news := map (dep_status s) (deps W j)).
   set (p := spawn_l true true (j_marker (spec W j)) (is_some_b (adopted W j)) r news).
   pose proof (I_loc I j) as L0. unfold jl in L0. fold r in L0.
@@ -805,8 +805,8 @@ Theorem liv_step : forall W s l s', wf W = true -> posreq W -> Inv W s -> Liv W 
 Proof.
   intros W s l s' WF PQ I L H. unfold step in H. destruct l as [j|n|j|]; simpl in H.
   - destruct ((j <? njobs W)%nat && match pc (jobs s j) with PNot => true | _ => false end
-              && forallb (dep_submitted s) (deps W j)) eqn:E; [|discriminate].
-    inversion H; subst s'. apply andb_true_iff in E. destruct E as (E & E3). apply andb_true_iff in E. destruct E as (E1 & E2).
+              && forallb (dep_submitted s) (deps W j) && fits W j) eqn:E; [|discriminate].
+    inversion H; subst s'. apply andb_true_iff in E. destruct E as (E & EFIT). apply andb_true_iff in E. destruct E as (E & E3). apply andb_true_iff in E. destruct E as (E1 & E2).
     apply liv_submit; auto. destruct (pc (jobs s j)); try discriminate; auto.
   - destruct (nth_error (queue s) n) as [c|] eqn:E; [|discriminate]. inversion H; subst s'.
     set (s0 := s_queue s (remove_nth n (queue s))).
@@ -972,4 +972,140 @@ Example ex_adopted :
 Proof.
   cbv zeta. split; [reflexivity|]. split; [apply reachable_final; vm_compute; reflexivity|].
   repeat split; vm_compute; reflexivity.
+Qed.
+
+(* ------------------------------------------------------------------ containment stated on the workload alone (C07)
+   (statement and proof structure from the independent audit, notes/AUDIT_A.md finding 9; extended to jobs whose
+   process was left running by an earlier scheduler) *)
+Unset Implicit Arguments.
+
+(* okjob W j : j ends DONE  - decided by an earlier run (the process it left running ends well, or, no
+               such process, the marker pre-exists), or its exit code is 0 and every job it depends
+               on ends DONE;
+   kojob W j : j ends ERROR - the process left by an earlier run ends badly, or, not decided by an
+               earlier run, its exit code is not 0 or some job it depends on ends ERROR.          *)
+Inductive okjob (W : workload) : nat -> Prop :=
+  | ok_adopted : forall j, adopted W j = Some DONE -> okjob W j
+  | ok_marker : forall j, adopted W j = None -> j_marker (spec W j) = true -> okjob W j
+  | ok_run : forall j, adopted W j = None -> j_code (spec W j) = 0 ->
+               (forall k, In (DJob k) (deps W j) -> okjob W k) -> okjob W j.
+Inductive kojob (W : workload) : nat -> Prop :=
+  | ko_adopted : forall j, adopted W j = Some ERROR -> kojob W j
+  | ko_own : forall j, adopted W j = None -> j_marker (spec W j) = false -> j_code (spec W j) <> 0 -> kojob W j
+  | ko_dep : forall j k, adopted W j = None -> j_marker (spec W j) = false -> In (DJob k) (deps W j) ->
+               kojob W k -> kojob W j.
+(* cancelled: not decided by an earlier run and some dependency ends ERROR *)
+Definition cancelled (W : workload) (j : nat) : Prop :=
+  adopted W j = None /\ j_marker (spec W j) = false /\ exists k, In (DJob k) (deps W j) /\ kojob W k.
+
+Section Closed.
+  Variables (W : workload) (s : state).
+  Hypothesis WF : wf W = true.
+  Hypothesis PQ : posreq W.
+  Hypothesis R : reachable W s.
+  Hypothesis Q : queue s = [].
+  Hypothesis HP : has_pending s W = false.
+
+  Let NH := proj1 (no_hang WF PQ R Q HP).
+  Let I := reachable_inv W s WF R.
+
+  Lemma ok_done : forall j, okjob W j -> spawned (pc (jobs s j)) = true -> pc (jobs s j) = PReturned DONE.
+  Proof.
+    induction 1 as [j A|j A M|j A C D IH]; intros S; destruct (NH j S) as (r & P);
+      pose proof (final_truthful W s j r WF R P) as FT; rewrite A in FT.
+    - destruct FT as (_ & E & _). rewrite E in P. exact P.
+    - destruct FT as (_ & (_ & B) & _). rewrite (B (or_introl M)) in P. exact P.
+    - destruct FT as (_ & (_ & B) & _). destruct (j_marker (spec W j)) eqn:M.
+      + rewrite (B (or_introl eq_refl)) in P. exact P.
+      + assert (DD : forall k, In (DJob k) (deps W j) -> st (jobs s k) = DONE).
+        { intros k Hk. pose proof (IH k Hk (I_sub I j k S Hk)) as Pk.
+          exact (proj1 (final_truthful W s k DONE WF R Pk)). }
+        destruct (independent_unaffected W s j r WF R P M A DD) as (_ & E).
+        rewrite E in P. unfold code_state in P. rewrite C in P. exact P.
+  Qed.
+
+  Lemma ko_error : forall j, kojob W j -> spawned (pc (jobs s j)) = true -> pc (jobs s j) = PReturned ERROR.
+  Proof.
+    induction 1 as [j A|j A M C|j k A M D K IH]; intros S; destruct (NH j S) as (r & P).
+    - pose proof (final_truthful W s j r WF R P) as FT; rewrite A in FT. destruct FT as (_ & E & _).
+      rewrite E in P. exact P.
+    - pose proof (final_truthful W s j r WF R P) as FT; rewrite A in FT; destruct FT as (_ & (B & _) & N).
+      assert (X : r <> DONE).
+      { intros E. destruct (B E) as [Y|(_ & Y)]; [rewrite M in Y; discriminate|contradiction]. }
+      rewrite (N X) in P. exact P.
+    - pose proof (IH (I_sub I j k S D)) as Pk.
+      pose proof (returned_error_fanc W s j k WF R D Pk) as F.
+      destruct (failed_ancestor_not_launched W s j r WF R F M A) as (_ & X).
+      destruct (X P) as (E & _). rewrite E in P. exact P.
+  Qed.
+
+  (* the results of the run, at its end, are a function of the workload alone: whatever the
+     schedule, the submission order, the moment at which failures arrive *)
+  Theorem results_closed : forall j, spawned (pc (jobs s j)) = true ->
+    (okjob W j -> pc (jobs s j) = PReturned DONE) /\
+    (kojob W j -> pc (jobs s j) = PReturned ERROR) /\
+    (* not affected: every dependency succeeds => launched exactly once, result = own exit code *)
+    (adopted W j = None -> j_marker (spec W j) = false -> (forall k, In (DJob k) (deps W j) -> okjob W k) ->
+       launches (jobs s j) = 1%nat /\ pc (jobs s j) = PReturned (code_state (j_code (spec W j)))) /\
+    (* cancelled: never launched, ERROR, failure_status = DEPENDENCY *)
+    (cancelled W j -> launches (jobs s j) = 0%nat /\ pc (jobs s j) = PReturned ERROR /\ fdep (jobs s j) = true).
+  Proof.
+    intros j S. split; [intros H; apply ok_done; auto|]. split; [intros H; apply ko_error; auto|]. split.
+    - intros A M D. destruct (NH j S) as (r & P).
+      assert (DD : forall k, In (DJob k) (deps W j) -> st (jobs s k) = DONE).
+      { intros k Hk. pose proof (ok_done k (D k Hk) (I_sub I j k S Hk)) as Pk.
+        exact (proj1 (final_truthful W s k DONE WF R Pk)). }
+      destruct (independent_unaffected W s j r WF R P M A DD) as (L & E). split; [exact L|]. rewrite <- E. exact P.
+    - intros (A & M & k & D & K).
+      pose proof (ko_error k K (I_sub I j k S D)) as Pk.
+      pose proof (returned_error_fanc W s j k WF R D Pk) as F.
+      destruct (NH j S) as (r & P).
+      destruct (failed_ancestor_not_launched W s j r WF R F M A) as (L & X).
+      destruct (X P) as (E & FD). rewrite E in P. auto.
+  Qed.
+
+  (* every job of a well-formed workload is classified: the two cases are exhaustive *)
+  Theorem every_job_classified : forall j, okjob W j \/ kojob W j.
+  Proof.
+    intros j. induction j as [j IH] using lt_wf_ind.
+    destruct (adopted W j) as [v|] eqn:A.
+    { assert (F : finished v = true).
+      { unfold adopted in A. destruct (j_adopt (spec W j)); inversion A. apply adopt_state_finished. }
+      destruct v; simpl in F; try discriminate; [left; apply ok_adopted; auto|right; apply ko_adopted; auto]. }
+    destruct (j_marker (spec W j)) eqn:M; [left; apply ok_marker; auto|].
+    assert (X : forall l, (forall k, In (DJob k) l -> (k < j)%nat) ->
+                (forall k, In (DJob k) l -> okjob W k) \/ (exists k, In (DJob k) l /\ kojob W k)).
+    { induction l as [|d l IHl]; intros Hl; [left; intros k []|].
+      destruct IHl as [Al|(k & Hk & Kk)]; [intros k Hk; apply Hl; right; exact Hk| |right; exists k; split; [right|]; auto].
+      destruct d as [k|t c].
+      - destruct (IH k (Hl k (or_introl eq_refl))) as [O|K].
+        + left. intros k' [E|Hk']; [inversion E; subst; exact O|apply Al; exact Hk'].
+        + right. exists k. split; [left; reflexivity|exact K].
+      - left. intros k' [E|Hk']; [discriminate|apply Al; exact Hk']. }
+    destruct (X (deps W j) (fun k Hk => wf_lt W j k WF Hk)) as [O|(k & Hk & K)].
+    - destruct (Z.eq_dec (j_code (spec W j)) 0) as [C|C]; [left; apply ok_run; auto|right; apply ko_own; auto].
+    - right. apply ko_dep with (k := k); auto.
+  Qed.
+End Closed.
+
+(* instance: the end of the run of W_adopt (two adopted processes, a dependent behind one of them) *)
+Example ex_closed_adopt :
+  let s := final W_adopt all_fixed L_adopt in
+  pc (jobs s 0) = PReturned ERROR /\ pc (jobs s 1) = PReturned DONE /\
+  launches (jobs s 2) = 1%nat /\ pc (jobs s 2) = PReturned DONE.
+Proof.
+  cbv zeta. destruct ex_adopted as (WF & R & Q & HP & _).
+  assert (PQ : posreq W_adopt).
+  { intros j t c H. do 3 (destruct j as [|j]; [simpl in H; repeat (destruct H as [H|H]; [inversion H; subst; lia|]); contradiction|]).
+    unfold deps, spec in H. simpl in H. destruct j; simpl in H; contradiction. }
+  set (s := final W_adopt all_fixed L_adopt) in *.
+  assert (S0 : spawned (pc (jobs s 0)) = true) by (vm_compute; reflexivity).
+  assert (S1 : spawned (pc (jobs s 1)) = true) by (vm_compute; reflexivity).
+  assert (S2 : spawned (pc (jobs s 2)) = true) by (vm_compute; reflexivity).
+  destruct (results_closed W_adopt s WF PQ R Q HP 0 S0) as (_ & K0 & _).
+  destruct (results_closed W_adopt s WF PQ R Q HP 1 S1) as (O1 & _).
+  destruct (results_closed W_adopt s WF PQ R Q HP 2 S2) as (_ & _ & U2 & _).
+  split; [apply K0; apply ko_adopted; reflexivity|]. split; [apply O1; apply ok_adopted; reflexivity|].
+  apply U2; [reflexivity|reflexivity|].
+  intros k D. vm_compute in D. destruct D as [D|[D|[]]]; inversion D; subst. apply ok_adopted. reflexivity.
 Qed.
